@@ -22,6 +22,7 @@ package main
 import (
 	"bufio"
 	"crypto/sha1"
+	"crypto/tls"
 	"encoding/base64"
 	"encoding/json"
 	"fmt"
@@ -960,6 +961,60 @@ func fdsDirect(seed uint64, tier string, args []string, w *bufio.Writer) {
 			} else if herr == nil {
 				d.fail("ws.async-"+m.kind, "handshake succeeded")
 				_ = ws.CloseNextLayer()
+			}
+		})
+	}
+	// wss:// against endpoints that accept the TCP connection and then fail the TLS handshake (a clear-text server answering with
+	// HTTP, a server that closes at once): the dialled connection is released, blocking and asynchronous
+	for _, mode := range []string{"sync", "async"} {
+		mode := mode
+		d.trial("ws.tls-handshake-fails-"+mode, "wss:// handshake ("+mode+") against a clear-text server", func() {
+			for i := 0; i < 3; i++ {
+				ln, err := net.Listen("tcp", "127.0.0.1:0")
+				if err != nil {
+					return
+				}
+				srvDone := make(chan struct{})
+				go func() {
+					defer close(srvDone)
+					c, err := ln.Accept()
+					if err != nil {
+						return
+					}
+					if i%2 == 0 {
+						buf := make([]byte, 64)
+						_ = c.SetReadDeadline(time.Now().Add(time.Second))
+						_, _ = c.Read(buf)
+						_, _ = c.Write([]byte("HTTP/1.1 400 Bad Request\r\nContent-Length: 0\r\n\r\n"))
+					}
+					c.Close()
+				}()
+				ws, err := websocket.NewWebsocketStream(ioc, &tls.Config{InsecureSkipVerify: true}, websocket.RoleClient)
+				if err != nil {
+					ln.Close()
+					return
+				}
+				url := "wss://" + ln.Addr().String() + "/"
+				var herr error
+				if mode == "sync" {
+					herr = ws.Handshake(url)
+				} else {
+					called := false
+					ws.AsyncHandshake(url, func(err error) { called, herr = true, err })
+					deadline := time.Now().Add(4 * time.Second)
+					for !called && time.Now().Before(deadline) {
+						_ = ioc.RunOneFor(5 * time.Millisecond)
+					}
+					if !called {
+						herr = nil
+					}
+				}
+				<-srvDone
+				ln.Close()
+				if herr == nil {
+					d.fail("ws.tls-handshake-fails-"+mode, "the handshake did not fail")
+					_ = ws.CloseNextLayer()
+				}
 			}
 		})
 	}
